@@ -59,6 +59,10 @@ def cases(draw, cfg, scen=None):
         free = list(range(ninit, nk))
 
     def reader(focus):
+        if cfg != 'sql_file' and draw(st.booleans()):
+            # one reader process doing every kind of read in turn on one handle: each atomic placement then checks all of them at that point of
+            # the writer's progress (sqlite keeps single-operation readers: what matters there is the lock state an idle reader is left in)
+            return ['multi', draw(st.sampled_from([focus, focus, draw(st.integers(0, nk - 1))])), draw(st.permutations(['get', 'in', 'len', 'list', 'items']))]
         k = draw(st.sampled_from(READS))
         if k in ('get', 'in', 'loadk'):
             return [k, draw(st.sampled_from([focus, focus, draw(st.integers(0, nk - 1))]))]
@@ -68,7 +72,14 @@ def cases(draw, cfg, scen=None):
         cands = [j for j in range(nv) if j != old]
         return draw(st.sampled_from(cands))
     parts = []
-    if scen == 'ww':
+    if scen == 'linger':
+        # sqlite: a reader process does ONE read of a key that has a row history and then stays alive, idle; afterwards a writer stores another key.
+        # One schedule per read kind (reader first, completely; then the writer): cheap, and exactly where a lock kept by an idle reader shows
+        if not ninit:
+            ninit, init = 1, [[0, draw(st.integers(0, nv - 1))]]
+            free = list(range(ninit, nk))
+        parts = [['get', 0], ['set', free[0], draw(st.integers(0, nv - 1))]]
+    elif scen == 'ww':
         a, b = free[0], (free[1] if len(free) > 1 else 0)
         if b == 0 and ninit == 0:
             b = a
@@ -109,12 +120,12 @@ def cases(draw, cfg, scen=None):
             'seeded_rng': draw(st.integers(0, 2)) == 0}
 
 
-SCENARIOS = dict((c, ['ww', 'wr', 'or', 'wo', 'wwr'] if c in DIRLIKE else ['wr', 'or', 'wo']) for c in CONFIGS)
+SCENARIOS = dict((c, ['ww', 'wr', 'or', 'wo', 'wwr'] + (['linger'] if c == 'sql_file' else []) if c in DIRLIKE else ['wr', 'or', 'wo']) for c in CONFIGS)
 
 
 def strata(tier):
     # sqlite strata get twice the budget: lock states (shared / reserved / pending, busy handling) make its schedule space the richest
-    return [('%s/%s' % (c, sc), cases(c, sc), (3 if sc in ('or', 'wr', 'wwr') else 2) if c == 'sql_file' else 1) for c in CONFIGS for sc in SCENARIOS[c]]
+    return [('%s/%s' % (c, sc), cases(c, sc), (4 if sc == 'linger' else 2) if c == 'sql_file' else 1) for c in CONFIGS for sc in SCENARIOS[c]]
 
 
 # ------------------------------------------------------------ participants
@@ -128,6 +139,10 @@ def participant(cfg, root, op, keys, vals, shared=None, lowlevel=False, seeded=F
             import random
             random.seed(20240229)        # every worker process seeds the global generator the same way ('reproducible' workers)
         kind = op[0]
+        if kind == 'multi':
+            a = A.open_lowlevel(cfg, root, 'A') if lowlevel else (shared if shared is not None else A.open_archive(cfg, root, 'A'))
+            _KEEP.append(a)
+            return [(k, _read(a, [k, op[1]], keys)) for k in op[2]]
         if lowlevel and kind != 'set':
             a = A.open_lowlevel(cfg, root, 'A')
             if kind in ('load', 'loadk'):
@@ -189,6 +204,22 @@ def _read(a, op, keys):
 def run_case(case):
     base = tempfile.mkdtemp(prefix='c14_', dir=_tmproot())
     try:
+        if case.get('scen') == 'linger':
+            out, nts, classes = [], Multi(), []
+            nts.evals = 0
+            for i, rk in enumerate(READS):
+                rop = [rk, 0] if rk in ('get', 'in', 'loadk') else [rk]
+                sub = dict(case, parts=[rop, case['parts'][1]], only_sequential=True)
+                o, n, c = _run(sub, os.path.join(base, 'L%d' % i))
+                out += o
+                nts.evals += n.evals
+                for x in n:
+                    nts.append(x)
+                classes += c
+                if out:
+                    break
+            nts.append(('sql_file', 'linger', tuple(case['parts'][1][1:])))
+            return out[:1], nts, classes + ['lingering_reader_then_writer']
         return _run(case, base)
     finally:
         shutil.rmtree(base, ignore_errors=True)
@@ -200,7 +231,7 @@ def _run(case, base):
     vals = [V.build(s) for s in case['vals']]
     parts = case['parts']
     opk = '|'.join(p[0] for p in parts)
-    classes = ['cfg:' + cfg, 'scen:' + case['scen']] + (['workers_seed_global_rng_alike'] if case.get('seeded_rng') else []) + ['reader:' + p[0] for p in parts if p[0] in READS] + (['shared_handle'] if case.get('shared') else []) + \
+    classes = ['cfg:' + cfg, 'scen:' + case['scen']] + (['workers_seed_global_rng_alike'] if case.get('seeded_rng') else []) + ['reader:' + p[0] for p in parts if p[0] in READS or p[0] == 'multi'] + (['shared_handle'] if case.get('shared') else []) + \
         (['file_lowlevel_open'] if case.get('lowlevel') else [])
     I = dict((keys[i], copy.deepcopy(vals[j])) for i, j in case['init'])
     W = {}
@@ -211,6 +242,7 @@ def _run(case, base):
                 classes.append('writer_via:' + p[3])
     tmpl = os.path.join(base, 'T')
     os.makedirs(tmpl)
+    only_sequential = bool(case.get('only_sequential'))
 
     def mk():
         a = A.open_archive(cfg, tmpl, 'A')
@@ -256,7 +288,7 @@ def _run(case, base):
     # (a) exhaustive atomic placements: learn each participant's event count from a sequential run
     d, trace = one([0] * 5000, 'sequential 0-first')
     counts = [sum(1 for t in trace if t[0] == i) for i in range(len(parts))]
-    if d is None:
+    if d is None and not only_sequential:
         for a in range(len(parts)):
             for b in range(len(parts)):
                 if a == b:
@@ -273,7 +305,7 @@ def _run(case, base):
             if d is not None:
                 break
     # (b) generated fine-grained interleavings
-    if d is None:
+    if d is None and not only_sequential:
         for s in case['rand']:
             d, _ = one(list(s), 'generated interleaving %r' % (s,))
             classes.append('random_schedule')
@@ -341,6 +373,12 @@ def judge(cfg, case, parts, keys, vals, I, W, results, final, trace, label, tail
                 locked = True
                 continue
             return Discrepancy('C14/%s/%s/operation-failed/%s' % (tag, kind, r[1]), '%r raised %s (%s)' % (p, r[2], where))
+        if kind == 'multi':
+            for sk, sv in r[1]:
+                d = judge(cfg, case, [[sk, p[1]]], keys, vals, I, W, [('ok', sv)], None, trace, label, ())
+                if d is not None and not isinstance(d, str):
+                    return d
+            continue
         v = r[1]
         if kind == 'get':
             k = keys[p[1]]
@@ -383,6 +421,8 @@ def judge(cfg, case, parts, keys, vals, I, W, results, final, trace, label, tail
                     return Discrepancy('C14/%s/loadk/present-key-missing' % tag, 'load(%r) loaded nothing (%s)' % (k, where))
     if locked:
         return 'inconclusive_locked'
+    if final is None:
+        return None          # sub-judgement of one read of a compound reader
     if final[0] != 'ok':
         return Discrepancy('C14/%s/final/unreadable/%s' % (tag, final[1]), '%s (%s)' % (final[2], where))
     if not A.exact(final[1], after):
@@ -392,7 +432,7 @@ def judge(cfg, case, parts, keys, vals, I, W, results, final, trace, label, tail
     return None
 
 
-REQUIRED_CLASSES = ['writer_via:setdefault', 'writer_via:update', 'file_lowlevel_open', 'shared_handle', 'interleaved', 'atomic_placement', 'random_schedule', 'scen:ww', 'scen:wr', 'scen:or', 'scen:wo', 'scen:wwr'] + ['cfg:' + c for c in CONFIGS] + \
+REQUIRED_CLASSES = ['lingering_reader_then_writer', 'reader:multi', 'writer_via:setdefault', 'writer_via:update', 'file_lowlevel_open', 'shared_handle', 'interleaved', 'atomic_placement', 'random_schedule', 'scen:ww', 'scen:wr', 'scen:or', 'scen:wo', 'scen:wwr'] + ['cfg:' + c for c in CONFIGS] + \
     ['reader:' + r for r in READS]
 
 
